@@ -211,6 +211,9 @@ type lpmExec struct {
 	firstTxn *lpm.Txn[int] // the first transaction object of the case
 	tref     map[string]lpmEnt
 	iters    []*lpmIt
+	scratch  [96]byte // callers' key buffer: keys are encoded from sub-slices of it, then it is reused
+	nparse   int
+	made     []lpmMade
 }
 
 type lpmIt struct {
@@ -292,12 +295,71 @@ func eqLpm(a, b []lpmEnt) bool {
 	return true
 }
 
+// maskLpm: the first ceil(plen/8) bytes of data with the bits beyond plen cleared
+func maskLpm(data []byte, plen int) []byte {
+	n := (plen + 7) / 8
+	if n > len(data) {
+		return append([]byte{}, data...)
+	}
+	md := append([]byte{}, data[:n]...)
+	if r := plen % 8; r != 0 && n > 0 {
+		md[n-1] &= byte(0xff) << (8 - r)
+	}
+	return md
+}
+
 func (e *lpmExec) parse(d, l string) ([]byte, int, []byte) {
 	data := unhx(d)
 	plen, _ := strconv.Atoi(l)
+	e.nparse++
+	if n := (plen + 7) / 8; e.nparse%2 == 0 && n <= len(data) && n+2 <= len(e.scratch) {
+		// as a caller with one address buffer does: exactly the prefix's bytes, from a buffer with
+		// spare capacity that is overwritten right after the key was made
+		buf := e.scratch[:n]
+		copy(buf, data)
+		key := lpm.EncodeLPMKey(buf, uint16(plen))
+		for i := range e.scratch {
+			e.scratch[i] = 0xa5
+		}
+		e.made = append(e.made, lpmMade{key: key, md: maskLpm(data, plen), plen: plen})
+		return maskLpm(data, plen), plen, key
+	}
 	key := lpm.EncodeLPMKey(data, uint16(plen))
 	md, _ := lpm.DecodeLPMKey(key)
 	return append([]byte{}, md...), plen, key
+}
+
+type lpmMade struct {
+	key  []byte
+	md   []byte
+	plen int
+}
+
+// checkMade: a key, once made, keeps denoting the prefix it was made for, whatever the caller
+// does with the buffer it encoded from
+func (e *lpmExec) checkMade(o *Out) {
+	for i := range e.made {
+		m := &e.made[i]
+		if m.key == nil {
+			continue
+		}
+		bad := len(m.key) < 2
+		if !bad {
+			func() {
+				defer func() {
+					if recover() != nil {
+						bad = true
+					}
+				}()
+				md, pl := lpm.DecodeLPMKey(m.key)
+				bad = !bytes.Equal(md, m.md) || int(pl) != m.plen
+			}()
+		}
+		if bad {
+			o.Fail("C13", "stored-key-follows-the-callers-buffer", nil, fmt.Sprintf("the key made for prefix %s/%d reads %s after the caller reused the buffer it was encoded from: an inserted prefix is no longer the one that was inserted", hx(m.md), m.plen, hx(m.key)))
+			m.key = nil
+		}
+	}
 }
 
 func (e *lpmExec) wantQuery(ref map[string]lpmEnt, kind string, md []byte, plen int) []lpmEnt {
@@ -341,6 +403,7 @@ func (e *lpmExec) wantLookup(ref map[string]lpmEnt, md []byte, plen int) (int, b
 }
 
 func (e *lpmExec) Do(o *Out, f []string) string {
+	defer e.checkMade(o)
 	switch f[0] {
 	case "ins", "del", "lookup", "exact", "q", "len", "dump", "commit", "commitkeep", "keepiter":
 		if e.txn == nil {
